@@ -273,6 +273,10 @@ def _nan_reaches_store(body, par):
                 return False
             continue
         if isinstance(s, ast.Assign):
+            if all(isinstance(t, (ast.Name, ast.Tuple)) and all(isinstance(x, ast.Name) and x.id != par for x in ast.walk(t)
+                                                                  if isinstance(x, ast.Name)) for t in s.targets) \
+                    and not any(isinstance(x, ast.Name) and x.id == par for x in ast.walk(s.value)):
+                continue            # a local that does not involve the argument (limits unpacked from a constant)
             return True
         return None
     return None
@@ -397,18 +401,56 @@ def check_once(model, rep):
             if k not in seen:
                 seen.add(k)
                 rep.violation('C14.once', f'{a.text}|{b.text}|pwm', text, f'{mod}:{a.lineno}')
-    # no handler can swallow the conflict error between apply_rules and the caller of run
-    tries = []
-    for cls, meths in (('Solver', None), ('PWMControl', None), ('MotorControlBase', None)):
+    # no handler can swallow the conflict error between apply_rules and the caller of run: call graph by method name over the three
+    # classes; a `try` counts when its function lies between Solver.run and the raise, its body contains a call on that path (or a
+    # raise), and one of its handlers can catch a ValueError without re-raising it (or its `finally` leaves with return/break/continue)
+    members = {}
+    for cls in ('Solver', 'PWMControl', 'MotorControlBase'):
         ci = model.classes.get(cls)
-        if not ci:
-            continue
-        for mem in ci.all_members():
+        for mem in (ci.all_members() if ci else ()):
+            members.setdefault(mem.name, []).append(mem)
+
+    def callees(node):
+        return {c.func.attr for c in ast.walk(node) if isinstance(c, ast.Call) and isinstance(c.func, ast.Attribute) and c.func.attr in members}
+    graph = {nm: set().union(*[callees(m_.node) for m_ in ms]) for nm, ms in members.items()}
+
+    def reach(src):
+        seen_, todo = set(), [src]
+        while todo:
+            x = todo.pop()
+            for y in graph.get(x, ()):
+                if y not in seen_:
+                    seen_.add(y)
+                    todo.append(y)
+        return seen_
+    from_run = reach('run') | {'run'}
+    below = reach('apply_rules') | {'apply_rules'}
+    on_path = {nm for nm in from_run if nm in below or 'apply_rules' in reach(nm)}
+    tries = []
+    for nm in sorted(on_path):
+        for mem in members[nm]:
             for n in ast.walk(mem.node):
-                if isinstance(n, ast.Try):
+                if not isinstance(n, ast.Try):
+                    continue
+                inside = any(isinstance(x, ast.Raise) for b in n.body for x in ast.walk(b)) or \
+                    any(callees(b) & on_path for b in n.body)
+                if not inside:
+                    continue
+
+                def catches(h):
+                    if h.type is None:
+                        return True
+                    names = {x.id if isinstance(x, ast.Name) else x.attr for x in ast.walk(h.type) if isinstance(x, (ast.Name, ast.Attribute))}
+                    return bool(names & {'ValueError', 'Exception', 'BaseException'}) or not names
+                swallow = any(catches(h) and not (h.body and isinstance(h.body[-1], ast.Raise) and h.body[-1].exc is None
+                                                  and not any(isinstance(x, (ast.Return, ast.Break, ast.Continue)) for b in h.body for x in ast.walk(b)))
+                              for h in n.handlers)
+                swallow = swallow or any(isinstance(x, (ast.Return, ast.Break, ast.Continue)) for b in n.finalbody for x in ast.walk(b))
+                if swallow:
                     tries.append(f'{mem.qualname}:{n.lineno}')
     rep.decide(not tries, 'C14.once', 'no-handler-on-call-path', f'try/except on the path between apply_rules and the caller of '
-               f'Solver.run can swallow the conflict ValueError: {tries}')
+               f'Solver.run can swallow the conflict ValueError: {tries}',
+               detail=f'functions between Solver.run and the raise: {sorted(on_path)}')
 
 
 def check(model, rep):
